@@ -4,12 +4,12 @@
 set -uo pipefail
 d=$1; m=$2; wt=$d/wt; o=$d/out/$m
 cd $wt && git checkout -q -- . 
-cmake --build _build -j16 > /dev/null 2>&1 || { echo "clean build failed"; exit 2; }
+cmake --build _build -j${SEED_J:-16} > /dev/null 2>&1 || { echo "clean build failed"; exit 2; }
 demo=$(ls $o/demo.sh 2>/dev/null)
 ( cd $o && bash demo.sh $wt/_build > $o/confirm_without.txt 2>&1 ); rc0=$?
 git apply $o/patch.diff || { echo "patch does not apply"; exit 2; }
-cmake --build _build -j16 > /dev/null 2>&1 || { echo "build with change failed"; git checkout -q -- .; exit 2; }
-ctest --test-dir _build -j16 --timeout 900 > $o/confirm_ctest.txt 2>&1
+cmake --build _build -j${SEED_J:-16} > /dev/null 2>&1 || { echo "build with change failed"; git checkout -q -- .; exit 2; }
+ctest --test-dir _build -j${SEED_J:-16} --timeout 900 > $o/confirm_ctest.txt 2>&1
 failed=$(grep -E "^\s*[0-9]+ - .*\((Failed|Timeout|SEGFAULT|Exception|Child aborted)" $o/confirm_ctest.txt | grep -v grid_fault_edge_limits | wc -l)
 ( cd $o && bash demo.sh $wt/_build > $o/confirm_with.txt 2>&1 ); rc1=$?
 git checkout -q -- .
